@@ -55,3 +55,12 @@ Theorem C13_text_each_matches_some : forall ct o e stripped gt ex merged rex,
   forall text, In text rex -> exists s, In s (ex_strings ex) /\ re_model_fullmatch ct text s = Some true.
 Proof. exact batch_text_each_matches. Qed.
 Print Assumptions C13_text_each_matches_some.
+
+(* tagging changes only the grouping: the tagged and the untagged text of a pattern accept the same strings *)
+Theorem C13_tag_same_language : forall ct e full frags t0 t1 s,
+  In e extras8 -> forallb (frag_renderable e) frags = true ->
+  vrle2re false full e false false frags = Ok t0 ->
+  vrle2re false full e false true frags = Ok t1 ->
+  re_model_fullmatch ct t0 s = re_model_fullmatch ct t1 s.
+Proof. exact tag_same_language. Qed.
+Print Assumptions C13_tag_same_language.
